@@ -84,16 +84,20 @@ def shrink(prop, line, fails):
         rounds += 1
         parts = best.split(" ")
         cands = []
+        budget = 64 << 20          # bytes of candidate text per round (a 100 KiB case has 10^5 one-byte deletions)
         for fi in prop.shrink_fields(best):
             h = parts[fi]
             n = len(h) // 2
             chunk = n
-            while chunk >= 1:
+            while chunk >= 1 and budget > 0 and len(cands) < 4000:
                 for start in range(0, n, chunk):
                     nh = h[:2 * start] + h[2 * (start + chunk):]
                     cand = list(parts)
                     cand[fi] = nh if nh else "-"
                     cands.append(" ".join(cand))
+                    budget -= len(cands[-1])
+                    if budget <= 0 or len(cands) >= 4000:
+                        break
                 chunk //= 2
         if not cands:
             break
